@@ -137,6 +137,11 @@ func run(c cfg, hist []wop) (key, msg string) {
 				opts = append(opts, resource.WithInitialRecord(id, val{len(id) + 4, "i" + id}.msg()))
 				ref[id] = item{val{len(id) + 4, "i" + id}, t0}
 			}
+			if c.Initial == 3 {
+				// options describe the resource, their order is not part of the description: here the clock comes
+				// after the initial records it has to stamp
+				opts = append(opts[1:len(opts):len(opts)], opts[0])
+			}
 			col = resource.NewCollection(opts...)
 		}
 		var ropts []resource.ReadOption
@@ -346,6 +351,9 @@ func runID(c cfg, hist []wop) (key, msg string) {
 		for _, id := range []string{"m", "c", "x"}[:c.Initial] {
 			opts = append(opts, resource.WithInitialRecord(id, val{len(id) + 4, "i" + id}.msg()))
 			ref[id] = item{val{len(id) + 4, "i" + id}, t0}
+		}
+		if c.Initial == 3 {
+			opts = append(opts[1:len(opts):len(opts)], opts[0]) // the clock option last
 		}
 		col := resource.NewCollection(opts...)
 		ropts := []resource.ReadOption{resource.WithBackpressure(true), resource.WithUpdatesOnly(c.UpdatesOnly)}
